@@ -67,5 +67,6 @@ SpecContained ==
    /\ OkOrNone(SymRel(Name, "ID")) /\ OkOrNone(CodeRel(Name, "ID")) /\ OkOrNone(ExtraRel(Name, "ID"))
    /\ OkOrNone(BinCacheRel(Name, Name, "ID")) /\ OkOrNone(BinServerRel(Name, Name, "ID")) /\ OkOrNone(Moz(SymRel(Name, "ID")))
 Emit == PrintT(<<"CASE", ToJson([s |-> Name])>>)
-TokenSet == {"a", ".", "/", "\\", ":", "..", ".pdb", ".DLL", "C", "b.c"}
+\* " (deleted)" is what Linux appends to the path of a mapped file that has been unlinked
+TokenSet == {"a", ".", "/", "\\", ":", "..", ".pdb", ".DLL", "C", "b.c", " (deleted)"}
 ====
